@@ -44,9 +44,9 @@ type Node struct {
 	Decls    []Decl  // Elem: declarations in source order
 
 	Prefix  string // Elem, Attr: serialisation prefix chosen by NormalizeNS
-	NoXMLNS bool // scripted streams that do not emit the implicit xml binding
-	Ord     int  // document order index over all nodes (incl. attrs, ns)
-	ID      int  // creation index, stable across re-indexing
+	NoXMLNS bool   // scripted streams that do not emit the implicit xml binding
+	Ord     int    // document order index over all nodes (incl. attrs, ns)
+	ID      int    // creation index, stable across re-indexing
 }
 
 type Doc struct {
